@@ -204,6 +204,9 @@ def load_cfg(verif, name):
             if k == 'files':
                 files = dict(base.get('files', {}))
                 for f, fc in v.items():
+                    if fc.get('reset'):
+                        files[f] = {k_: v_ for k_, v_ in fc.items() if k_ != 'reset'}
+                        continue
                     if f in files:
                         m = dict(files[f])
                         for kk, vv in fc.items():
@@ -288,7 +291,8 @@ class Unit:
         if not in_trait_impl and not in_trait and not re.match(r'pub\b', head):
             G('pub ')
             self.report['rewrites'].append({'rule': 'R12', 'file': repo_file, 'line': line(item.start), 'before': '', 'after': 'pub'})
-        R(item.start, fp.params_close)
+        sig_txt = self._apply_rewrites(src[item.start:fp.params_close] + ')', [(r_, None, rx_, rp_, o_) for (r_, c_, rx_, rp_, o_) in file_rewrites], repo_file, line(item.start))
+        em.emit(sig_txt[:-1], ('repo', repo_file, line(item.start)))
         if c and c.world:
             inner = m[fp.params_open + 1:fp.params_close]
             if inner.strip() == '':
@@ -535,6 +539,7 @@ class Unit:
             # R15
             new = re.sub(r':\s*&\[', ": &'static [", text, count=1)
             new = re.sub(r':\s*&str\b', ": &'static str", new, count=1)
+            new = re.sub(r':\s*\[&str;', ": [&'static str;", new, count=1)
             if new != text:
                 self.report['rewrites'].append({'rule': 'R15', 'file': repo_file, 'line': line(item.start), 'before': '&', 'after': "&'static"})
                 text = new
@@ -578,6 +583,8 @@ class Unit:
                 t = ' '.join(it.text.split())
                 t = re.sub(r'^pub(\([^)]*\))?\s+', '', t)
                 return not any(re.search(rx, t) for rx in drop_use)
+            if ('%s %s' % (it.kind, it.name)) in fcfg.get('drop_items', []) or it.name in fcfg.get('drop_items', []):
+                return False
             if sel is None:
                 return True
             return ('%s %s' % (it.kind, it.name)) in sel or it.name in sel
